@@ -97,8 +97,11 @@ impl K256Affine {
     pub fn y(&self) -> Fp {
         // Use uncompressed encoding to get y coordinate.
         let encoded = self.0.to_encoded_point(false);
-        let y_bytes = encoded.y().expect("Uncompressed point has y coordinate");
-        Fp::from_bytes(y_bytes).expect("Valid coordinate")
+        // The identity has no y in its SEC1 encoding; like `x()`, report 0.
+        match encoded.y() {
+            Some(y_bytes) => Fp::from_bytes(y_bytes).expect("Valid coordinate"),
+            None => Fp::ZERO,
+        }
     }
 
     /// Creates an affine point from x and y coordinates.
